@@ -419,6 +419,11 @@ class BADS:
                 points X0 are not inside the provided hard bounds lower_bounds and upper_bounds."""
             )
 
+        # An infinite starting coordinate that passed the test above is not
+        # a usable starting point: treat it like a missing one (drawn below)
+        if np.any(np.isinf(x0)):
+            x0 = np.where(np.isinf(x0), np.nan, x0)
+
         # # Compute "effective" bounds (slightly inside provided hard bounds)
         bounds_range = upper_bounds - lower_bounds
         bounds_range[np.isinf(bounds_range)] = 1e3
